@@ -94,6 +94,7 @@ package oci
 //@   loop 1 invariant [ri] resolverRI(tagResolver) && graphRI(graph) && alive(tagResolver) && alive(graph) && tagged != nil && alive(tagged) && !isTagSetOf(tagResolver, tagged) && s.storage == old(s.storage)
 //@   loop 2 invariant [ri] resolverRI(tagResolver) && graphRI(graph) && alive(tagResolver) && alive(graph) && tagged != nil && alive(tagged) && !isTagSetOf(tagResolver, tagged) && s.storage == old(s.storage) && subject != nil
 //@   loop 2 decreases [C09:subject-chain-terminates] height(*subject)
+//@   call (*Memory).Exists requires [C09:chain-checked-against-rebuilt-graph] args.m == graph
 //@   ensures [C09:ri] result == nil ==> storeRI(s)
 //@
 //@ func (*Store).GC
